@@ -46,6 +46,15 @@ def fixtures():
         _fx["dna"] = make_aligned_seqs(
             {"a": "ACGTACGTTGCAACGTRAATGCCATTAGGA", "b": "ACGTACATTGCAAC-TGAATGCTATTAGCA", "c": "ACCTACGTTGAAATGTGAATACCATCAGGA"}, moltype="dna"
         )
+        _fx["tree3"] = make_tree(tip_names=["Human", "Mouse", "Wombat"])
+        _fx["dna185"] = make_aligned_seqs(
+            {
+                "Human": "AGTCACTTTTGAATGTGAACAAAAGGAAAATCAAGGAAAGAATGAGTCTAATATCAAGCCTGTACAGACAGTTAATATCACTGCAGGCTTTCCTGTGGTTGGTCAGAAAGATAAGCCAGTTGATAATGCCAAATGTAAAGGAGGCTCTAGGTTTTGTCTATCATCTCAGTTCAGAGGCAACGAAA",
+                "Mouse": "GGTGACAGCTAAAGGTAAACAAAAAGAACGTCAGGGACAGGAAGAATTTGAAATCAGTCACGTACAAGCAGTTGCGGCCACAGTGGGCTTACCTGTGCCCTGTCAAGAAGGTAAGCTAGCTGCTGATACAATGTGTGATAGAGGTTGTAGGCTTTGTCCATCATCTCATTACAGAAGCGGGGAGA",
+                "Wombat": "CACCACAGATTGTGGGGGCCAGGAAAAAAAGCAGGGAAACAGAGAATCAAACAAGCCTGTGTGGCCAAAGTCTGCAGTCATGAGCTTAGCTGCGGCTTGTCAGACAGAGGAGAGGCCAGGTGTTTATGCCAAATGTACAGAAGTGTCCAGGCTTTGTCACATAGCTCCATTACATGTCATTGACT",
+            },
+            moltype="dna",
+        )
         _fx["codon"] = make_aligned_seqs(
             {"a": "ATGGCTAAACCCGGGTTTGAC", "b": "ATGGCAAAACCAGGGTTCGAC", "c": "ATGGCTAGACCCGGATTTGAT"}, moltype="dna"
         )
@@ -146,6 +155,7 @@ class OptRecorder:
         self.meta = []
 
     def install(self):
+        from cogent3.maths.optimisers import ParameterOutOfBoundsError
         from cogent3.recalculation.calculation import Calculator
         from cogent3.recalculation.scope import ParameterController
 
@@ -162,12 +172,16 @@ class OptRecorder:
             except Exception:
                 pass
             f = None
+            refused = False
             try:
                 f = orig_test(self, values)
                 return f
+            except (ArithmeticError, ParameterOutOfBoundsError):
+                refused = True  # the calculator refused the vector: the optimiser treats it as -inf
+                raise
             finally:
                 if rec.cur is not None:
-                    rec.cur.append({"op": "eval", "f": f, "inb": inb})
+                    rec.cur.append({"op": "reject", "f": None, "inb": inb} if refused else {"op": "eval", "f": f, "inb": inb})
 
         Calculator.testoptparvector = testoptparvector
         Calculator.__call__ = testoptparvector
@@ -176,11 +190,17 @@ class OptRecorder:
             top = rec.cur is None
             if top:
                 rec.cur = [{"op": "start", "f": self.get_log_likelihood() if hasattr(self, "get_log_likelihood") else None}]
+            raised = True
             try:
-                return orig_opt(self, *a, **k)
+                out = orig_opt(self, *a, **k)
+                raised = False
+                return out
             finally:
                 if top:
-                    rec.cur.append({"op": "finish", "f": self.get_log_likelihood()})
+                    if raised:
+                        rec.cur.append({"op": "raised", "f": None})  # not a step of Optimiser.tla
+                    else:
+                        rec.cur.append({"op": "finish", "f": self.get_log_likelihood()})
                     rec.traces.append(rec.cur)
                     rec.cur = None
 
@@ -204,8 +224,8 @@ def rank_traces(traces):
         for e in tr:
             f = e["f"]
             rk = 0 if (f is None or not np.isfinite(f)) else ranks[f]
-            if e["op"] == "eval":
-                enc.append({"op": "eval", "f": rk, "inb": bool(e["inb"])})
+            if e["op"] in ("eval", "reject"):
+                enc.append({"op": e["op"], "f": rk, "inb": bool(e["inb"])})
             else:
                 enc.append({"op": e["op"], "f": rk})
         out.append(enc)
@@ -248,6 +268,34 @@ def optimiser_runs(run, scratch, seed, nruns):
             lo, hi, v = rule.get("lower"), rule.get("upper"), rule["init"]
             if (lo is not None and v < lo - 1e-9) or (hi is not None and v > hi + 1e-9):
                 run.fail(key + ":value-out-of-bounds", {"model": model, "rule": {k: (float(x) if isinstance(x, (int, float)) else x) for k, x in rule.items()}}, what="optimised parameter outside its declared bounds")
+    # a richer model whose calculation REFUSES some vectors mid-evaluation (GeneralStationary), initialised from the fitted
+    # GTR nested in it: initialisation reproduces the lnL, and optimisation under several limits neither loses nor raises
+    from cogent3.evolve.ns_substitution_model import GeneralStationary
+
+    gtr = get_model("GTR")
+    null = gtr.make_likelihood_function(fx["tree3"])
+    null.set_alignment(fx["dna185"])
+    null.optimise(show_progress=False, max_evaluations=200, limit_action="ignore")
+    meta.append(("GTR(null for GS)", dict(max_evaluations=200), None, null.lnL))
+    limits = [52, 142, 200, 250] if nruns <= 10 else [30, 52, 80, 110, 142, 170, 200, 250, 320, 400]
+    for lim in limits:
+        alt = GeneralStationary(gtr.alphabet).make_likelihood_function(fx["tree3"])
+        alt.set_alignment(fx["dna185"])
+        alt.initialise_from_nested(null)
+        before = alt.lnL
+        if not close(before, null.lnL):
+            run.fail("nested:GTR->GS:lnL-not-reproduced", {"null": null.lnL, "alt": before}, what="GeneralStationary initialised from the nested GTR fit has a different lnL")
+        key = "optimise:GS-from-nested-GTR:limit=yes"
+        try:
+            alt.optimise(show_progress=False, max_evaluations=lim, limit_action="ignore")
+            after = alt.lnL
+        except Exception as ex:
+            meta.append(("GS", dict(max_evaluations=lim), before, None))
+            run.fail(key + ":raised:" + type(ex).__name__, {"max_evaluations": lim, "before": before, "exception": repr(ex)}, what="optimise() started from a point with a finite lnL raised instead of returning")
+            continue
+        meta.append(("GS", dict(max_evaluations=lim), before, after))
+        if after < before - 1e-9 * max(1.0, abs(before)):
+            run.fail(key + ":lnL-decreased", {"max_evaluations": lim, "before": before, "after": after}, what="optimise returned a lower lnL than it started from")
     # hypothesis test: LR >= 0
     from cogent3 import get_app
 
@@ -281,8 +329,15 @@ def optimiser_runs(run, scratch, seed, nruns):
     for tid, l in re.findall(r"<<\s*(\d+),\s*(\d+)\s*>>", m.group(2)):
         tid, l = int(tid), int(l)
         ev = enc[tid - 1][l - 1]
-        what = "evaluated a vector outside the declared bounds" if ev["op"] == "eval" and not ev["inb"] else "run finished below its starting value" if ev["op"] == "finish" else "event is not a step of Optimiser.tla"
+        what = "evaluated a vector outside the declared bounds" if ev["op"] == "eval" and not ev["inb"] else "run finished below its starting value" if ev["op"] == "finish" else "optimise() raised instead of finishing (no such step in Optimiser.tla)" if ev["op"] == "raised" else "event is not a step of Optimiser.tla"
         run.fail(f"opt-trace:{ev['op']}:{'out-of-bounds' if ev.get('inb') is False else 'rejected'}", {"trace": tid, "step": l, "event": ev, "raw": rec.traces[tid - 1][max(0, l - 3) : l], "run": meta[tid - 1] if tid - 1 < len(meta) else None}, what=what)
+    ops = {}
+    for tr in enc:
+        for e in tr:
+            ops[e["op"]] = ops.get(e["op"], 0) + 1
+    run.note("optimiser_events_by_action", ops)
+    if not ops.get("reject"):
+        raise RuntimeError("vacuous: no evaluation was refused by the calculator in the GeneralStationary runs (RejectedT never exercised)")
     run.sample({"optimiser_run": meta[0][0], "settings": meta[0][1], "events": enc[0][:6], "n_events": len(enc[0])})
     return len(enc), sum(len(t) for t in enc)
 
